@@ -15,6 +15,7 @@ struct Hooks {
   void *(*realloc_)(void *, size_t, void *ra) = nullptr;
   bool (*free_)(void *, void *ra) = nullptr;           // return true if absorbed
   void (*other)(const char *name, void *ra) = nullptr;  // mmap/munmap/mprotect/strdup/getenv/time calls
+  void (*on_exit)(int code, void *ra) = nullptr;
   uint64_t *clock_ticks = nullptr;                      // simulated clock of the running task
   int64_t clock_jump_s = 0;
 };
@@ -38,5 +39,7 @@ struct tm *__wrap_localtime_r(const time_t *t, struct tm *r) { return gmtime_r(t
 struct tm *__wrap_localtime(const time_t *t) { static struct tm tmv; return gmtime_r(t, &tmv); }
 int __wrap_gettimeofday(struct timeval *tv, void *) { using namespace sim::wrap; counts[W_TIME]++; tv->tv_sec = sim_now_s(); tv->tv_usec = hooks.clock_ticks ? (long) (*hooks.clock_ticks % 1000) * 1000 : 0; return 0; }
 int __wrap_clock_gettime(clockid_t, struct timespec *ts) { using namespace sim::wrap; counts[W_TIME]++; ts->tv_sec = sim_now_s(); ts->tv_nsec = hooks.clock_ticks ? (long) (*hooks.clock_ticks % 1000) * 1000000 : 0; return 0; }
+// exit() called by library code (MIR's fatal-error paths print a message and exit(1)): attribute it to the calling function
+void __wrap_exit(int code) { using namespace sim::wrap; if (hooks.on_exit) hooks.on_exit(code, __builtin_return_address(0)); _exit(code ? code : 71); }
 char *__wrap_getenv(const char *n) { using namespace sim::wrap; counts[W_GETENV]++; if (hooks.other) hooks.other("getenv", __builtin_return_address(0)); return getenv(n); }
 }
